@@ -137,8 +137,9 @@ func (s *sched) quiesce(timeout time.Duration) (int, string) {
 				continue
 			}
 			switch {
-			case bytes.Contains(b, []byte("main.(*sched).park")):
-				// parked in harness code
+			case bytes.Contains(b, []byte("main.(*sched).park")) && strings.HasPrefix(state, "chan receive"):
+				// parked in harness code, blocked on its resume channel (so it has registered itself; a goroutine that is
+				// inside park() but still waiting for s.mu - which this loop holds - is not parked yet)
 			case strings.HasPrefix(state, "chan receive") && bytes.Contains(b, []byte("waitForValue")):
 				waiters++
 			default:
